@@ -31,7 +31,7 @@ def classify(r):
 
 
 TECHNIQUE = "Lean 4 invariant proof at the decision label of the Session transition system (all interleavings) + trace acceptance and decision oracle on real headless sessions with forced race windows"
-EXTRA_PROPS = ["SessionFG", "HeartBeatTables", "Select1Tables"]   # fg_decision_complete / fg_no_partial: the same statements at READ granularity
+EXTRA_PROPS = ["SessionFG", "HeartBeatTables", "Select1Tables", "C14Fair"]   # fg_decision_complete / fg_no_partial: the same statements at READ granularity
 LEVEL_TEXT = ("c14_decision_complete: in every history, any step that takes the select-1/exit-0 decision does so in a state where the source has ended, every item was matched and "
               "every result harvested, and the outcome is accept iff select-1 and exactly one match, abort iff exit-0 and none, interactive otherwise; c14_no_partial states the three "
               "forbidden windows directly; c14_never_later: once interactive, never again; c14_prefix_counterexample exhibits the pre-fix race. fg_decision_complete / fg_no_partial: the same for the "
